@@ -63,6 +63,16 @@ def build():
           return z3.If(al == strconst('deprecated'), cur == val, cur == al)
         return cur == val
       ensures['roundtrip.' + p] = cl
+    for al in aliases:
+      def consumed(a, r, al=al):
+        # "deprecated aliases MAP ONTO their replacement": the alias itself is consumed -- its attribute goes back to the 'deprecated'
+        # sentinel, so that get_params / clone / a later set_params of the replacement never replay the alias value
+        cur = a.self.raw(al)
+        if cur is None:
+          return z3.BoolVal(False)
+        cur = unwrap(cur, a.path)
+        return z3.BoolVal(cur == 'deprecated') if isinstance(cur, str) else (cur == strconst('deprecated') if z3.is_expr(cur) else z3.BoolVal(False))
+      ensures['alias-consumed.' + al] = consumed
     events = {}
     for al in aliases:
       def ev(a, events_, r, al=al):
